@@ -75,7 +75,10 @@ fn dname(d: &Dist) -> String {
 pub fn describe(m: &Machine) -> String {
     let mut s = format!(
         "budget(pad {} frac {} | block {}us frac {})",
-        m.allowed_padding_packets, m.max_padding_frac, m.allowed_blocked_microsec, m.max_blocking_frac
+        m.allowed_padding_packets,
+        m.max_padding_frac,
+        m.allowed_blocked_microsec,
+        m.max_blocking_frac
     );
     for (i, st) in m.states.iter().enumerate() {
         s += &format!(" S{i}{{");
@@ -133,7 +136,9 @@ pub fn describe(m: &Machine) -> String {
                     if c.copy {
                         "(copy)".to_string()
                     } else {
-                        c.dist.map(|d| format!("({})", dname(&d))).unwrap_or_default()
+                        c.dist
+                            .map(|d| format!("({})", dname(&d)))
+                            .unwrap_or_default()
                     }
                 );
             }
@@ -341,10 +346,38 @@ fn gen_time_dist(g: &mut Gen, cfg: &MachCfg) -> Dist {
             1 => {
                 // heavy tails for the 24h clamp
                 *g.pick(&[
-                    Dist::new(DistType::Pareto { scale: 1e9, shape: 0.1 }, 0.0, 0.0),
-                    Dist::new(DistType::LogNormal { mu: 40.0, sigma: 10.0 }, 0.0, 0.0),
-                    Dist::new(DistType::Uniform { low: 0.0, high: 1e300 }, 0.0, 0.0),
-                    Dist::new(DistType::Weibull { scale: 1e15, shape: 0.2 }, 0.0, 0.0),
+                    Dist::new(
+                        DistType::Pareto {
+                            scale: 1e9,
+                            shape: 0.1,
+                        },
+                        0.0,
+                        0.0,
+                    ),
+                    Dist::new(
+                        DistType::LogNormal {
+                            mu: 40.0,
+                            sigma: 10.0,
+                        },
+                        0.0,
+                        0.0,
+                    ),
+                    Dist::new(
+                        DistType::Uniform {
+                            low: 0.0,
+                            high: 1e300,
+                        },
+                        0.0,
+                        0.0,
+                    ),
+                    Dist::new(
+                        DistType::Weibull {
+                            scale: 1e15,
+                            shape: 0.2,
+                        },
+                        0.0,
+                        0.0,
+                    ),
                     cdist(f64::MAX),
                     cdist(86_400_000_000.0),
                     cdist(86_400_000_001.0),
@@ -374,7 +407,17 @@ fn gen_limit_dist(g: &mut Gen, cfg: &MachCfg) -> Dist {
 }
 
 fn gen_counter_dist(g: &mut Gen, cfg: &MachCfg) -> Dist {
-    let vals = [0.0, 1.0, 1.0, 2.0, 3.0, 1.8e19, 1.9e19, 1.8446744073709552e19, 9.3e18];
+    let vals = [
+        0.0,
+        1.0,
+        1.0,
+        2.0,
+        3.0,
+        1.8e19,
+        1.9e19,
+        1.8446744073709552e19,
+        9.3e18,
+    ];
     match cfg.family {
         Family::Det => cdist(*g.pick(&vals)),
         Family::Dyadic => {
@@ -566,7 +609,9 @@ fn rebuild_state(st: &State, map: &dyn Fn(usize) -> Option<usize>) -> State {
 }
 
 fn is_const(d: &Dist) -> bool {
-    matches!(d.dist, DistType::Uniform { low, high } if low == high) && d.start == 0.0 && d.max == 0.0
+    matches!(d.dist, DistType::Uniform { low, high } if low == high)
+        && d.start == 0.0
+        && d.max == 0.0
 }
 
 fn simplify_dist(d: &Dist) -> Option<Dist> {
@@ -789,7 +834,11 @@ pub fn shrink_machine(m: &Machine) -> Vec<Machine> {
             _ => {}
         }
         for which in 0..2 {
-            let c = if which == 0 { st.counter.0 } else { st.counter.1 };
+            let c = if which == 0 {
+                st.counter.0
+            } else {
+                st.counter.1
+            };
             if let Some(c) = c {
                 if let Some(d) = c.dist {
                     if let Some(d2) = simplify_dist(&d) {
@@ -814,10 +863,30 @@ pub fn shrink_machine(m: &Machine) -> Vec<Machine> {
     }
     // simplify budgets
     for (a, b, c, d) in [
-        (0, m.max_padding_frac, m.allowed_blocked_microsec, m.max_blocking_frac),
-        (m.allowed_padding_packets, 0.0, m.allowed_blocked_microsec, m.max_blocking_frac),
-        (m.allowed_padding_packets, m.max_padding_frac, 0, m.max_blocking_frac),
-        (m.allowed_padding_packets, m.max_padding_frac, m.allowed_blocked_microsec, 0.0),
+        (
+            0,
+            m.max_padding_frac,
+            m.allowed_blocked_microsec,
+            m.max_blocking_frac,
+        ),
+        (
+            m.allowed_padding_packets,
+            0.0,
+            m.allowed_blocked_microsec,
+            m.max_blocking_frac,
+        ),
+        (
+            m.allowed_padding_packets,
+            m.max_padding_frac,
+            0,
+            m.max_blocking_frac,
+        ),
+        (
+            m.allowed_padding_packets,
+            m.max_padding_frac,
+            m.allowed_blocked_microsec,
+            0.0,
+        ),
     ] {
         if (a, b.to_bits(), c, d.to_bits())
             != (
